@@ -177,11 +177,16 @@ def rebuild_state(h, stats=None):
             stats["reference_space_group_by_clone"] += 1
     # asymmetric unit: through the constructor
     try:
+        # what the constructor derives itself from elements/positions/labels
+        # is derived again from the current values; only what a caller supplied
+        # is supplied again
+        derived = set(AsymmetricUnit(list(au0.elements), np.array(au0.positions, copy=True),
+                                     labels=np.array(au0.labels, copy=True)).properties)  # fmt: skip
         au = AsymmetricUnit(
             list(au0.elements),
             np.array(au0.positions, copy=True),
             labels=np.array(au0.labels, copy=True),
-            **{k: _clone(v) for k, v in au0.properties.items()},
+            **{k: _clone(v) for k, v in au0.properties.items() if k not in derived},
         )
         if not np.array_equal(np.asarray(au.labels), np.asarray(au0.labels)) or set(vars(au)) - set(vars(au0)):
             raise ValueError("constructor changed the data")
@@ -512,7 +517,11 @@ class Sim:
         None when the call raised (then it is judged at once as usual)."""
         h = self.world[hi]
         try:
-            raw = self._in_thread(thread, lambda: fn(h, self.A, self._ctx(hi)))
+            def call():
+                with _Strict(self.A.get("strict")):  # the same caller environment as in outcome()
+                    return fn(h, self.A, self._ctx(hi))
+
+            raw = self._in_thread(thread, call)
         except O.Unsupported:
             raise
         except Exception:  # noqa: BLE001
@@ -552,7 +561,8 @@ class Sim:
             return
         for m in self.mut_log[hi]:
             try:
-                O.MUTATORS[m](twin, self.A, {"dir": FS.dir("twin", str(i)), "box": {}})
+                with _Strict(self.A.get("strict")):
+                    O.MUTATORS[m](twin, self.A, {"dir": FS.dir("twin", str(i)), "box": {}})
             except Exception:  # noqa: BLE001 - the same call raised on the handle (or not: then the states differ)
                 pass
         if state_digest(twin) != S:
@@ -695,7 +705,7 @@ class Sim:
         # the twin of a CIF-born crystal (see _cif_twin) is taken through the
         # calls that changed the state; a single call that left the state as it
         # was (asking for the setting the crystal is in already) is not one
-        if self.mut_log[hi] is not None and (changed or op in ("flip2", "flip3")):
+        if self.mut_log[hi] is not None and (changed or op.startswith("flip")):
             self.mut_log[hi].append(op)
         fb["changed"] = changed
         fb["raised"] = a[1] if a[0] == "raised" else None
